@@ -1,4 +1,6 @@
 import PandoraModel.Properties.C19
+import PandoraModel.Properties.C19C05
+import PandoraModel.Properties.C19C20
 open Pandora.C19
 #print axioms bandLoop_eq
 #print axioms bandLoop_names
@@ -19,3 +21,45 @@ open Pandora.C19
 #print axioms source_refeed_spec
 #print axioms fixed_refeed_spec
 #print axioms refeed_current_counterexample
+-- C19 ∘ C05 / C17: the configuration `main` saves is accepted again by `checkConf` and completes to itself
+#print axioms Pandora.C19C05.checkConf_reads_two_keys
+#print axioms Pandora.C19C05.saved_config_replays
+#print axioms Pandora.C19C05.source_main_facts
+#print axioms Pandora.C19C05.source_saved_config_replays
+#print axioms Pandora.C19C05.saved_config_is_result_plus_margins
+#print axioms Pandora.C19C05.accepted_sides
+#print axioms Pandora.C19C05.dispOfJ_derived
+#print axioms Pandora.C19C05.savedOfDict_mainSaved
+#print axioms Pandora.C19C05.stepCheck_idempotent
+#print axioms Pandora.C19C05.checkPipelineSection_checkPipeline
+#print axioms Pandora.C19C05.saved_pipeline_fixpoint
+#print axioms Pandora.C19C05.saved_pipeline_names
+#print axioms Pandora.C19C05.generated_indicator_facts
+#print axioms Pandora.C19C05.classCheck_indicator
+#print axioms Pandora.C19C05.construct_indicator
+#print axioms Pandora.C19C05.checkPipelineSection_of_checked
+#print axioms Pandora.C19C05.checked_of_checkPipelineSection
+#print axioms Pandora.C19C05.runPipeline_checked
+#print axioms Pandora.C19C05.saved_pipeline_fixpoint_run
+#print axioms Pandora.C19C05.saved_config_replays_run
+#print axioms Pandora.C19C05.source_saved_config_replays_run
+#print axioms Pandora.C19C05.saved_config_replays_any
+#print axioms Pandora.C19C05.source_saved_config_replays_any
+#print axioms Pandora.C19C05.source_run_writes_indicator
+#print axioms Pandora.C19C05.runPipeline_id_of_no_confidence
+#print axioms Pandora.C19C05.source_refeed_spec_of_checkConf
+#print axioms Pandora.C19C05.refeed_models_agree
+-- C19 ∘ C20: the saved margins are the expected margins of the saved pipeline; config.json is a fix-point of `main`
+#print axioms Pandora.C19C20.exprLower_sound
+#print axioms Pandora.C19C20.schemaLower_sound
+#print axioms Pandora.C19C20.generated_marginSafe
+#print axioms Pandora.C19C20.accepted_goodCfg
+#print axioms Pandora.C19C20.entries_valid
+#print axioms Pandora.C19C20.accepted_pipeline_facts
+#print axioms Pandora.C19C20.accepted_margins_defined
+#print axioms Pandora.C19C20.stepCfgsOf_runPipeline
+#print axioms Pandora.C19C20.saved_margins_expected
+#print axioms Pandora.C19C20.main_config_defined
+#print axioms Pandora.C19C20.main_config_fixpoint
+#print axioms Pandora.C19C20.margins_shape_independent
+#print axioms Pandora.C19C20.expectedMarginsJ_shape_independent
